@@ -331,6 +331,43 @@ def _dotted_text(e):
     return '.'.join([e.id] + parts[::-1]) if isinstance(e, ast.Name) else None
 
 
+def _single_axis_reduction(loop):
+    ax = loop.target.id
+    it = loop.iter
+    axes = None
+    if isinstance(it, ast.Call) and isinstance(it.func, ast.Name) and it.func.id == 'sorted' and len(it.args) == 1 and len(it.keywords) == 1 \
+            and it.keywords[0].arg == 'reverse' and isinstance(it.keywords[0].value, ast.Constant) and it.keywords[0].value.value is True:
+        axes = it.args[0]
+    elif isinstance(it, ast.Call) and isinstance(it.func, ast.Name) and it.func.id == 'reversed' and len(it.args) == 1 \
+            and isinstance(it.args[0], ast.Call) and isinstance(it.args[0].func, ast.Name) and it.args[0].func.id == 'sorted' \
+            and len(it.args[0].args) == 1 and not it.args[0].keywords:
+        axes = it.args[0].args[0]
+    elif isinstance(it, ast.Subscript) and isinstance(it.value, ast.Call) and isinstance(it.value.func, ast.Name) and it.value.func.id == 'sorted' \
+            and len(it.value.args) == 1 and not it.value.keywords and U(it.slice).replace(' ', '') == '::-1':
+        axes = it.value.args[0]
+    if axes is None:
+        return None
+    st = loop.body[0]
+    if not (isinstance(st, ast.Assign) and len(st.targets) == 1 and isinstance(st.targets[0], ast.Name) and isinstance(st.value, ast.Call)):
+        return None
+    v, c = st.targets[0].id, st.value
+    REDS = ('max', 'min', 'sum', 'prod', 'amax', 'amin')
+    kw = {k.arg: k.value for k in c.keywords}
+    if set(kw) != {'axis'} or not (isinstance(kw['axis'], ast.Name) and kw['axis'].id == ax):
+        return None
+    if isinstance(c.func, ast.Attribute) and c.func.attr in REDS and isinstance(c.func.value, ast.Name) and c.func.value.id == v and not c.args:
+        pass
+    elif isinstance(c.func, ast.Attribute) and c.func.attr in REDS and U(c.func.value) in ('np', 'numpy') and len(c.args) == 1 \
+            and isinstance(c.args[0], ast.Name) and c.args[0].id == v:
+        pass
+    else:
+        return None
+    if any(isinstance(x, ast.Name) and x.id == ax for x in ast.walk(axes)):
+        return None
+    new_call = ast.Call(func=c.func, args=c.args, keywords=[ast.keyword(arg='axis', value=axes)])
+    return ast.copy_location(ast.Assign(targets=[ast.Name(id=v, ctx=ast.Store())], value=new_call), loop)
+
+
 def canonical_blocks(tree):
     """One shape for statement sequences that have several with the same meaning:
        if c: ..jump  else: REST              -> if c: ..jump ; REST            (jump = return / raise / continue / break)
@@ -396,6 +433,12 @@ def canonical_blocks(tree):
                         and sum(1 for x in fn_names if x.id == st.target.id) == 2:
                     st.target = f0.targets[0]
                     st.body = st.body[1:]
+            # for ax in sorted(AXES, reverse=True): v = v.max(axis=ax)   ->   v = v.max(axis=AXES)
+            # (one axis at a time from the last to the first leaves the numbers of the remaining axes valid: the same reduction over all of them)
+            if isinstance(st, ast.For) and isinstance(st.target, ast.Name) and not st.orelse and len(st.body) == 1:
+                red = _single_axis_reduction(st)
+                if red is not None:
+                    block[i] = st = red
             if isinstance(st, ast.Assign) and i + 1 < len(block) and isinstance(block[i + 1], ast.For) and fn_names is not None:
                 new = _loop_as_comprehension(st, block[i + 1], fn_names)
                 if new is not None:
